@@ -62,12 +62,12 @@ META = {
     'exhaustive_tiers': [],
 }
 SHARDS = {'quick': 1, 'thorough': 16}
-SHARD_TIMEOUT = {'quick': 300, 'thorough': 1500}
+SHARD_TIMEOUT = {'quick': 300, 'thorough': 2400}
 
 SIZES = {
     # random = programs per shard (each runs on datasets_per_batch data sets); enum_stride: every n-th enumerated program
-    'quick': dict(random=2000, batches=5, datasets_per_batch=5, depth=4, enum_per_type=1, enum_reduced=True, enum_stride=4, limit=360),
-    'thorough': dict(random=6000, batches=12, datasets_per_batch=4, depth=5, enum_per_type=1, enum_reduced=False, enum_stride=1, limit=700),
+    'quick': dict(random=1800, batches=5, datasets_per_batch=5, depth=4, enum_per_type=1, enum_reduced=True, enum_stride=4, limit=480),
+    'thorough': dict(random=2200, batches=8, datasets_per_batch=4, depth=5, enum_per_type=1, enum_reduced=False, enum_stride=1, limit=480),
 }
 EXEC = ('postgres', 'mysql')
 RECORD = ('oracle', 'cockroach')
@@ -208,7 +208,8 @@ class Harness(object):
             if r.exc == 'PlaceholderMismatch':
                 return 'disagree', 'placeholders: ' + (r.exc_msg or ''), {'mechanism': 'placeholder-argument-mismatch:' + LABEL[name]}
             if r.exc == 'ShimSqlError':
-                if sq_raised and sq.db_error and (sq.exc_msg or '')[:40] in (r.exc_msg or ''): return 'pony_raised', 'same_db_error', {}
+                if sq_raised and sq.db_error and (sq.exc_msg or '').split(':')[0][:40] in (r.exc_msg or ''):
+                    return 'pony_raised', 'same_db_error', {}
                 import re
                 return 'shim_sql_error', re.sub(r'[\d"\']+', '#', r.exc_msg or '')[:60], {}
             if sq_raised and sq.exc == r.exc: return 'pony_raised', r.exc, {}
@@ -232,7 +233,9 @@ class Harness(object):
         if st == 'no_reference': return 'no_reference', None, {}
         if v.outcome in ('known', 'disagree'): return 'c01_disagreement', 'sqlite_' + v.outcome, {}
         # SQLite agrees with the reference, this dialect does not: deviation-rule pass
-        fid, variant = self.deviation_pass(name, program, r, lambda r2: qdiff.compare(r2, rr)[0] in ('agree', 'lenient_agree'))
+        # accepted when the switched model reproduces the reference, or exactly the rows of the SQLite dialect
+        fid, variant = self.deviation_pass(name, program, r, lambda r2: qdiff.compare(r2, rr)[0] in ('agree', 'lenient_agree')
+                                           or (sq is not None and sq.kind == r2.kind and self.same_bag(sq, r2)))
         if fid: return 'finding', fid, {'finding': fid, 'variant': variant, 'detail': detail}
         return 'disagree', detail, {}
 
@@ -358,7 +361,6 @@ def data_domain(datas, base, rng):
 def limit_programs(qdiff, schema, gen, rng, n):
     """`v for v in E if cond` + order_by(non-nullable attrs..., pk) + slice / limit / page / first."""
     out = []
-    ents = ['Person', 'Person', 'Item', 'Tag', 'Dept', 'Passport', 'Gadget', 'Book']
     while len(out) < n:
         p = gen.program(shape='filter')
         if p.lam is None or outside_domain(p): continue
@@ -400,6 +402,78 @@ def like_programs(qdiff, seed):
                                   ['like.' + tmpl.split('(')[0].replace('{0}', 'X').replace(' ', '_'), 'shape.filter'])
                 forms = qdiff.forms_of(p)
                 out.append(forms[(k + seed) % len(forms)]); k += 1
+    return out
+
+
+FUNCTION_BATTERY_NAMES = ['abca', 'xax', '%a%', 'aab', 'baa', 'a%b', 'Ab', 'abcabc', 'b', 'pad', 'x%', 'ba']
+
+
+def function_programs(qdiff, seed):
+    """Deterministic battery: every dialect-specific builder override / translator branch of the neutral domain on data
+    that discriminates (leading vs trailing characters, NULL vs value, repeated parameters)."""
+    exprs = []
+    for c in ('a', 'x', '%', 'b', 'ab'):
+        for m in ('strip', 'lstrip', 'rstrip'):
+            exprs.append(('p.name.%s(%s)' % (m, qdiff.lit(c)), {}))
+            exprs.append(('p.name.%s(a0)' % m, {'a0': c}))
+    exprs += [(e, {}) for e in (
+        'p.name.upper()', 'p.name.lower()', 'p.name + p.nick', "p.name + '-' + str(p.age)", "concat(p.name, p.age, '!')",
+        'concat(p.nick, p.name)', 'f"{p.name}:{p.age}"', 'f"{p.nick}{p.name}"', 'p.name[0]', 'p.name[1]', 'p.name[-1]', 'p.name[-2]',
+        'p.name[:2]', 'p.name[1:]', 'p.name[1:3]', 'p.name[0:1]', 'p.name[2:2]', 'p.nick[:1]', 'len(p.name)', 'len(p.name + p.nick)',
+        'str(p.age)', 'str(p.score)', 'min(p.age, 3)', 'max(p.age, p.id)', "min(p.name, 'b')", 'max(p.name, p.nick)',
+        'max(p.score, 1)', "coalesce(p.nick, 'zz')", 'coalesce(p.score, -1)', 'coalesce(p.score, p.age, 0)', 'p.active + 1',
+        'p.active + p.age', 'p.flag + 1', 'p.active + p.flag', 'abs(p.age)', '-p.age', 'p.age * 2 - p.id', 'abs(p.score - p.age)',
+        '(p.name if p.active else p.nick)', '(p.age if p.flag else p.id)', "(1 if p.name.startswith('a') else 0)",
+        'p.name.strip()', 'p.name.upper().lower()', "p.name.strip('a').upper()", "(p.name + 'a').rstrip('a')")]
+    exprs += [('p.name[a0:a1]', {'a0': 1, 'a1': 3}), ('p.name[:a0]', {'a0': 2}), ('p.name[a0]', {'a0': 1}), ('p.name[a0]', {'a0': -1}),
+              ('p.age + a0 - a0 * a0', {'a0': 3}), ('concat(a0, p.name, a0)', {'a0': '%'}), ('p.name + a0 + p.name + a0', {'a0': '%s'}),
+              ('min(p.age, a0)', {'a0': 2}), ('coalesce(p.nick, a0)', {'a0': 'q%(p1)s'})]
+    conds = [(c, {}) for c in (
+        'p.active', 'not p.active', 'p.flag', 'not p.flag', 'p.active == True', 'p.flag != True', 'p.flag == False', 'p.flag is None',
+        'p.flag is not None', "p.name.startswith('a')", "p.name.endswith('a')", "'a' in p.name", "'%' in p.name", "'%' not in p.name",
+        'p.age in (1, 2, p.id)', "p.name in ('abca', 'b')", "p.name not in ('abca', 'b')", "(p.age, p.name) in [(1, 'abca'), (3, 'b')]",
+        "(p.id, p.name) == (1, 'abca')", "(p.id, p.name) != (1, 'abca')", 'between(p.age, 1, 5)', "p.name < 'b'", 'p.name >= p.nick',
+        'p.score is None', 'p.score == None', 'p.nick != None', "p.name.strip('a') == 'bc'", "p.name.rstrip('a') != p.name",
+        "p.name.lstrip('a') != p.name", 'p.active and p.flag', 'p.active or p.flag', 'not (p.active and p.flag)', 'p.active != p.flag',
+        'p.age > p.score', 'p.age + p.active > 2', 'len(p.name) > 3', "p.name[0] == 'a'", "p.name[-1] == 'a'", "p.name[:2] == 'ab'",
+        'p.age == min(p.age, p.id)', 'p.mentor is None', 'p.mentor is not None and p.mentor.active', 'p.dept.budget is None',
+        'exists(t for t in p.tags)', 'p.tags.is_empty()', 'count(p.tags) > 1', "'ab' in p.name and p.name.endswith('a')")]
+    conds += [('p.age == a0 or p.id == a0', {'a0': 2}), ('p.name == a0 or p.nick == a0 or p.name.startswith(a0)', {'a0': 'b'}),
+              ('p.age > a0 and p.id < a1 and p.age != a1 and p.id >= a0', {'a0': 1, 'a1': 6}), ('p.active == a0', {'a0': True}),
+              ('p.flag == a0', {'a0': False}), ('p.name in a0', {'a0': ['abca', 'b', 'x%']}), ('p.age in a0', {'a0': (1, 2, 3)}),
+              ("(p.age, p.name) == (a0, a1)", {'a0': 1, 'a1': 'abca'}), ('between(p.age, a0, a1)', {'a0': 0, 'a1': 3}),
+              ('p.name.startswith(a0) and a1 in p.name', {'a0': 'a', 'a1': '%'})]
+    whole = [
+        'count(p) for p in Person', 'count(p.score) for p in Person', 'count(p.name) for p in Person', 'sum(p.age) for p in Person',
+        'sum(p.score) for p in Person', 'avg(p.age) for p in Person', 'min(p.name) for p in Person', 'max(p.age) for p in Person',
+        'group_concat(p.name) for p in Person', "group_concat(p.name, '|') for p in Person", "group_concat(p.age, '-') for p in Person",
+        'group_concat(p.nick) for p in Person', '(count(p), sum(p.active + 0), max(len(p.name))) for p in Person',
+        '(p.dept, count(p), sum(p.age), group_concat(p.name)) for p in Person', '(p.active, count(p), min(p.age)) for p in Person',
+        '(p.flag, count(p)) for p in Person', '(p.dept.name, count(p.score), avg(p.age)) for p in Person if p.age > 0',
+        '(d.id, count(d.persons), sum(d.persons.age), max(p.name for p in d.persons)) for d in Dept',
+        "(d.id, group_concat(p.name for p in d.persons), group_concat((p.name for p in d.persons), '|')) for d in Dept",
+        '(d.id, sum(p.age for p in d.persons if p.active), count(p for p in d.persons if p.flag)) for d in Dept',
+        '(p.id, count(p.tags), count(p.items), sum(i.price for i in p.items)) for p in Person',
+        '(t.id, count(t.persons), max(t.persons.age)) for t in Tag', '(p, t) for p in Person for t in p.tags if t.weight is None or t.weight > 0',
+        '(p.id, m.id) for p in Person for m in Person if p.mentor == m', 'p.mentor for p in Person if p.mentor is not None',
+        '(i.id, i.owner.name) for i in Item if i.owner is not None', 'g for g in Gadget if g.volts is None or g.volts > 0',
+        'i for i in Item if isinstance(i, (Gadget, Book))', '(p.id, p.passport.code) for p in Person if p.passport is not None',
+    ]
+    out, k = [], 0
+    def add(src, params, lam, prod):
+        nonlocal k
+        p = qdiff.Program(src, params, 'gen', [], lam, [prod], 'S1')
+        if qdiff.lint_program(src) is None:
+            forms = qdiff.forms_of(p)
+            out.append(forms[(k + seed) % len(forms)])
+        k += 1
+    for e, params in exprs:
+        add('(p.id, %s) for p in Person' % e, params, None, 'battery.proj')
+    for c, params in conds:
+        add('p for p in Person if ' + c, params, {'ent': 'Person', 'var': 'p', 'cond': c}, 'battery.filter')
+        add('(p.id, p.name) for p in Person if ' + c, params, None, 'battery.filter_proj')
+    for src in whole:
+        add(src, {}, None, 'battery.whole')
     return out
 
 
@@ -477,6 +551,24 @@ def run(ctx):
             H.evaluate_limited(p)
     ctx.count('limit_battery.programs', per * 4)
 
+    # ---- part 5: dialect function battery (deterministic; data with leading/trailing characters, NULLs) ----------------
+    data = qdiff.dec(qdiff.gen_data(schema, ctx.subrng('battery-data'), neutral=True, flavor='mixed'))
+    while len(data['Person']) < len(FUNCTION_BATTERY_NAMES):
+        data['Person'].append(dict(data['Person'][len(data['Person']) % 3], id=len(data['Person']) + 1, tags=[], mentor=1))
+    for i, row in enumerate(data['Person']):
+        row['name'] = FUNCTION_BATTERY_NAMES[i % len(FUNCTION_BATTERY_NAMES)]
+        row['nick'] = None if i % 4 == 3 else FUNCTION_BATTERY_NAMES[(i * 5 + 2) % len(FUNCTION_BATTERY_NAMES)][:2]
+        row['age'] = [1, 2, 3, 5, -1, 0, 7, 2, 10, 3, 1, 12][i % 12]
+        row['score'] = None if i % 3 == 1 else [0, 3, -7, 5, 1, 2][i % 6]
+        row['active'] = i % 2 == 0
+        row['flag'] = None if i % 5 == 2 else i % 3 == 0
+    H.load(qdiff.json.loads(qdiff.json.dumps(qdiff.enc(data))), 'FUNC')
+    n_fun = 0
+    for p in function_programs(qdiff, ctx.seed + ctx.shard):
+        if outside_domain(p): continue
+        H.evaluate(p); n_fun += 1
+    ctx.count('function_battery.programs', n_fun)
+
     # ---- evidence ---------------------------------------------------------------------------------------------------------
     ctx.extra['executed_on'] = ['sqlite', 'pg-shim', 'mysql-shim']
     ctx.extra['recorded_only'] = ['oracle', 'cockroach']
@@ -498,7 +590,7 @@ def run(ctx):
     for name in EXEC:
         ctx.floor('agree_nontrivial.' + name, 1500)
         ctx.floor('outcome.%s.agree' % name, 4000)
-        ctx.floor('limit_agree_nonempty.' + name, 150)
+        ctx.floor('limit_agree_nonempty.' + name, 120)
     for name in RECORD:
         ctx.floor('outcome.%s.generated' % name, 2000)
         ctx.floor('recorded.%s.placeholders' % name, 600)
